@@ -98,6 +98,12 @@ func (svr *ComputeServer) BasicCompute(
 	} else {
 		return nil, status.Error(codes.NotFound, "global trust not found")
 	}
+	if id := request.Params.PositiveGlobalTrustId; id != "" {
+		if _, ok := svr.core.StoredTrustVectors.Load(id); !ok {
+			return nil, status.Error(codes.NotFound,
+				"positive global trust not found")
+		}
+	}
 	opts = append(opts, basic.WithInitialTrust(t), basic.WithResultIn(t))
 	logger.Info().Int("dim", cDim).Int("nnz", c.NNZ()).
 		Msg("local trust loaded")
